@@ -311,7 +311,7 @@ def run_case(binary, fl, case, scn_lines):
             env["YGM_COMM_BUFFER_SIZE_KB"] = case["buffer"]
         return C.run_sim(binary, [fl.what, fl.kinds, p], nodes=case["nodes"], ppn=case["ppn"], env=env,
                          sim_seed=case["sim_seed"], policy=case["policy"], eager_pct=case.get("eager", 50), want_log=False,
-                         timeout=case.get("timeout", 40))
+                         timeout=case.get("timeout", 40), max_steps=400000, livelock=100000)
     finally:
         shutil.rmtree(d, ignore_errors=True)
 
@@ -701,6 +701,9 @@ def case_public(case):
     return d
 
 
+_RETRIES = [0]
+
+
 def do_case(binary, case, model_ok, res_factory=C.Result):
     """generate, run, analyse one case -> (case, Result fragment, info)"""
     fl = case["fl"]
@@ -708,8 +711,9 @@ def do_case(binary, case, model_ok, res_factory=C.Result):
     rnd = random.Random(case["gen_seed"])
     scn = gen_scenario(fl, rnd, R, case["blocks"], R == 1, scale=case.get("scale", 1.0))
     sr = run_case(binary, fl, case, scn["lines"])
-    if sr.verdict == "wall-timeout":            # a loaded machine is not a violation: once more with a generous limit
-        sr = run_case(binary, fl, dict(case, timeout=300), scn["lines"])
+    if sr.verdict == "wall-timeout" and _RETRIES[0] < 8:   # a loaded machine is not a violation: once more with a generous limit
+        _RETRIES[0] += 1                                  # (bounded: a tree that really hangs must not stall the check)
+        sr = run_case(binary, fl, dict(case, timeout=150), scn["lines"])
     frag = res_factory()
     pub = case_public(case)
     info = {"verdict": sr.verdict, "nops": sum(len(b["ops"]) for b in scn["blocks"]), "contended": 0, "skipped": False}
